@@ -79,6 +79,8 @@ def variants(algo, tier):
                 ("normalize-random", {"init": "random", "normalize_factors": True}, 5 if q else 10),
                 ("normalize-svd", {"init": "svd", "normalize_factors": True}, 4 if q else 8),
                 ("linesearch", {"init": "random", "linesearch": True}, 10 if q else 14),
+                ("linesearch-svd", {"init": "svd", "linesearch": True}, 10 if q else 14),
+                ("linesearch-normalize", {"init": "random", "linesearch": True, "normalize_factors": True}, 10 if q else 14),
                 ("l2reg", {"init": "random", "l2_reg": 0.5}, 4 if q else 8),
                 ("fixed-mode0", {"init": "random", "fixed_modes": [0]}, 4 if q else 8),
                 ("mask", {"init": "random", "mask": "MASK"}, 4 if q else 8)]
@@ -93,6 +95,8 @@ def variants(algo, tier):
                 ("nn-0", {"init": "random", "linesearch": False, "nn_modes": [0]}, 3 if q else 5),
                 ("nn-02", {"init": "random", "linesearch": False, "nn_modes": [0, 2]}, 3 if q else 5),
                 ("linesearch", {"init": "random", "linesearch": True}, 10 if q else 14),
+                ("linesearch-svd", {"init": "svd", "linesearch": True}, 10 if q else 14),
+                ("linesearch-normalize", {"init": "random", "linesearch": True, "normalize_factors": True}, 10 if q else 14),
                 ("normalize", {"init": "random", "linesearch": False, "normalize_factors": True}, 3 if q else 6)]
     elif algo == "tensor_ring_als":
         out += [("lstsq", {"ls_solve": "lstsq"}, 4 if q else 8), ("normal_eq", {"ls_solve": "normal_eq"}, 4 if q else 8)]
@@ -136,6 +140,8 @@ def ranks_for(algo, shape, tier):
 
 
 def families_for(algo):
+    if algo == "parafac":
+        return ["generic", "lowrank", "integer", "small-norm"]
     if algo == "non_negative_parafac_hals":
         return ["nonneg", "nonneg-lowrank", "generic"]
     if algo == "hals_nnls":
